@@ -81,8 +81,14 @@ def _decode_int(v: str) -> int:
     int_v = int(v)
     if isinstance(v, bool):
         warnings.warn(UnsafeCastingWarning(raw_value=v, decoded_value=int_v))
-    elif int_v != float(v):
-        warnings.warn(UnsafeCastingWarning(raw_value=v, decoded_value=int_v))
+    else:
+        try:
+            lossy = int_v != float(v)
+        except OverflowError:
+            # `v` is (the text of) an integer too large for a float: nothing was lost.
+            lossy = False
+        if lossy:
+            warnings.warn(UnsafeCastingWarning(raw_value=v, decoded_value=int_v))
     return int_v
 
 
